@@ -313,12 +313,12 @@ def judge_value(case, got):
         return ('type', f'gives {got!r:.80}')
     if isinstance(want, list) != isinstance(gl, list) or (isinstance(want, list) and len(want) != len(gl)):
         return ('shape', f'gives {got!r:.80}, reference {want!r:.80}')
+    if fn == 'mode':
+        if gl != want:
+            cls = 'value' if first_mode_is_smallest(xs) else 'multimodal-first-encountered-is-not-smallest'
+            return (cls, f'gives {got}, Python gives {float(want):g} (first encountered among the most frequent)')
+        return None
     if kind == 'int':
-        if fn == 'mode':
-            if gl != want:
-                cls = 'value' if first_mode_is_smallest(xs) else 'multimodal-first-encountered-is-not-smallest'
-                return (cls, f'gives {got}, Python gives {want} (first encountered among the most frequent)')
-            return None
         if fn in ('stdev', 'pstdev'):
             ok = {math.isqrt(v) for v in (math.floor(want + F(1, 2)), math.ceil(want - F(1, 2))) if v >= 0}
             return None if gl in ok else ('value', f'gives {got}, integer square root of the rounded variance {float(want):.4f} is {sorted(ok)}')
@@ -337,7 +337,7 @@ def judge_value(case, got):
         return None
     # fixed point
     u = F(1, 2 ** f)
-    if fn in ('mode', 'median_low', 'median_high') or (fn == 'median' and len(xs) % 2):
+    if fn in ('median_low', 'median_high') or (fn == 'median' and len(xs) % 2):
         return None if gl == want else ('value', f'gives {got}, Python gives {float(want)}')
     if fn == 'median':
         return None if abs(gl - want) <= u else ('value', f'gives {got}, Python gives {float(want)} (allowed 1 unit: one truncation)')
@@ -450,6 +450,41 @@ class Windows:
             st.random = Proxy(st.random, 'random_unit_vector')
 
 
+def install_guard(mpc, seam):
+    """Excluded event (named in ASSUMPTIONS): runtime.trunc called on a list of field elements with l = bit_length (scalar_mul,
+    schur_prod, prod, matrix_prod) offsets by 2^(l-1) although the products carry 2f fractional bits; a negative product is then
+    truncated wrongly iff the statistical mask quotient q < (|x| - 2^(l-1)) / 2^f -- probability about 2^-(k+l-2f-2) per
+    product of magnitude <= 4.  Like the zero blinding factor of is_zero_public this is forced not to happen, and counted."""
+    import sys
+    if getattr(seam, '_c34_guard', None) is not None:
+        return
+    seam._c34_guard = 0
+    orig = seam._decide
+    SecureObject = mpc.SecureObject
+
+    def decide(kind, n):
+        v = orig(kind, n)
+        if kind != 'below' or n < 4:
+            return v
+        fr = sys._getframe(1)
+        depth = 0
+        while fr is not None and depth < 14:
+            if fr.f_code.co_name == 'trunc' and 'sftype' in fr.f_locals:
+                loc = fr.f_locals
+                sft, f = loc.get('sftype'), loc.get('f')
+                if isinstance(f, int) and f > 0 and isinstance(sft, type) and not issubclass(sft, SecureObject):
+                    thr = 1 << (f + 2)
+                    if v < thr and n >= 4 * thr:
+                        v += thr
+                        seam.log[-1] = (kind, n, v)
+                        seam._c34_guard += 1
+                break
+            fr = fr.f_back
+            depth += 1
+        return v
+    seam._decide = decide
+
+
 def eval_sp(mpc, seam, win, case, mode, seed, script):
     """Run one case; returns (opened result | ('raises', ..), draws made, choice draw indices)."""
     from mc import sp
@@ -491,6 +526,8 @@ def case_key(case, cls):
     if kw.get('centerspec') is not None:
         extra = ':given-' + ('mu' if fn.startswith('p') else 'xbar')
     if case.get('form', 'list') != 'list':
+        if cls == 'exception':
+            return f"C34:{fn}:{case['form']}-data:exception"
         extra += f":{case['form']}-data"
     return f"C34:{fn}:{TYPES[t][0]}{extra}:{cls}"
 
@@ -635,6 +672,8 @@ def run_sp(job):
     k = job['k']
     mpc, seam = sp.setup(sec_param=k, no_prss=True)
     win = Windows(mpc.statistics, seam)
+    install_guard(mpc, seam)
+    guard0 = seam._c34_guard
     cfg = f'sp/k{k}'
     ncases = 0
     for g in job['groups']:
@@ -657,6 +696,7 @@ def run_sp(job):
             if len(part.samples) < 2 and case['fn'] in ('median', 'stdev') and len(case['data']) == 3:
                 part.sample(dict(config=cfg, call=describe(case), result=repr(got), random_draws=draws, pivot_tie_bits=len(choices)))
     part.note('cases_enumerated', ncases)
+    part.note('short_truncation_masks_forced', seam._c34_guard - guard0)
     return part
 
 
@@ -900,6 +940,7 @@ def replay(case):
         return run_errors(dict(k=case['k'], seed=case['seed']))
     mpc, seam = sp.setup(sec_param=case['k'], no_prss=True)
     win = Windows(mpc.statistics, seam)
+    install_guard(mpc, seam)
     script = {int(a): b for a, b in (case.get('script') or {}).items()} or None
     got, draws, _, cplain = eval_sp(mpc, seam, win, case['case'], case['mode'], case['seed'], script)
     check_case(part, 'replay', case['case'], got, draws, cplain, case)
